@@ -12,7 +12,7 @@ after that packet's last output byte and before the next packet's first output b
 import hashlib
 
 from dsim.kernel import make_bench, cached_bench, Violations
-from models.usb2_wire import render_rx, WaveActor, rand_timing
+from models.usb2_wire import render_rx, WaveActor, rand_timing, gen_idle_data
 
 PROPERTY = "C28"
 ENGINE = "usb2_wire"
@@ -72,7 +72,8 @@ def gen(rng, tier, index):
                 strobes.append([rng.choice(["end", "end", "pre"]), rng.choice([1, 2, 3]), rng.choice(["complete", "invalid"])])
         op["strobes"] = strobes
         ops.append(op)
-    return {"engine": ENGINE, "config": {}, "ops": ops}
+    # the payload lines carry junk whenever `next` is low (they are only defined in a cycle that transfers a byte)
+    return {"engine": ENGINE, "config": {"idle_data": gen_idle_data(rng)}, "ops": ops}
 
 
 def _bench():
@@ -90,7 +91,8 @@ def _bench():
 def run(scn):
     ops = scn["ops"]
     bench = _bench()
-    wave, packets = render_rx(ops, side={"complete_in": 0, "invalid_in": 0}, names=("in_valid", "in_next", "in_payload"), tail=14)
+    wave, packets = render_rx(ops, side={"complete_in": 0, "invalid_in": 0}, names=("in_valid", "in_next", "in_payload"), tail=14,
+                              idle_data=scn["config"].get("idle_data"))
     probes = {p: 0 for p in PROBES}
     # ---- overlay the literal strobes ----
     for p in packets:
